@@ -1152,6 +1152,33 @@ def array_cases(rnd, n):
     return out
 
 
+def array_arith_cases():
+    """elements of an array of every element type combined with each other (and with scalars of the same type) by the
+    arithmetic operators inside a larger expression, the result used as an angle, a qubit index, a loop bound and an
+    initialiser: an element read from an array computes exactly like the scalar it holds (C07)"""
+    out = []
+    tys = [("bool", ["true", "true", "false", "true"]), ("int[8]", ["3", "-2", "1", "2"]), ("uint[4]", ["3", "1", "0", "2"]),
+           ("uint[8]", ["200", "100", "1", "2"]), ("int[16]", ["300", "-7", "1", "2"]), ("float[32]", ["0.5", "1.25", "1", "2"]),
+           ("float[64]", ["0.1", "2.5", "1", "2"])]
+    for ty, vs in tys:
+        pre = "qubit[8] q;\narray[%s, 4] f = {%s};\n%s s0 = %s;\n%s s1 = %s;\n" % (ty, ", ".join(vs), ty, vs[0], ty, vs[1])
+        for op in ["+", "*", "-"]:
+            exprs = ["f[0] %s f[1]" % op, "f[0] %s f[1] %s f[3]" % (op, op), "f[0] %s s1" % op, "s0 %s f[1]" % op, "s0 %s s1" % op,
+                     "f[0] * 2 %s f[1] %s f[0]" % (op, op), "(f[0] %s f[3]) * (f[1] + f[0])" % op, "-(f[0] %s f[1])" % op]
+            L = ["rx(%s) q[0];" % e for e in exprs]
+            L.append("int[32] n = %s;\nrz(n) q[1];" % exprs[1])
+            L.append("float[64] w = %s;\nry(w) q[2];" % exprs[0])
+            if not ty.startswith("float"):
+                L.append("x q[(%s) & 7];" % exprs[0])
+                L.append("for int i in [0:(%s) & 3] { h q[i]; }" % exprs[1])
+                L.append("pow((%s) & 3) @ y q[3];" % exprs[0])
+            out.append(H3 + pre + "\n".join(L) + "\n")
+        # the same through an element written after the declaration and through a 2-D array
+        out.append(H3 + "qubit[4] q;\narray[%s, 2, 2] g = {{%s, %s}, {%s, %s}};\ng[1, 1] = %s;\nrx(g[0, 0] + g[0, 1] + g[1, 1]) q[0];\n"
+                   "rx(g[0][0] * g[1][1] + g[0][1]) q[1];\n" % (ty, vs[0], vs[1], vs[2], vs[3], vs[0]))
+    return out
+
+
 def sub_body_block_cases():
     """every kind of quantum statement inside every kind of block inside a subroutine body: the formal
     qubits must be translated to the caller's qubits there exactly as at the top of the body (C02)"""
